@@ -129,6 +129,22 @@ def extract_fragment(mi, fnode, fragment):
     """'while:0' / 'for:2' -> the n-th loop statement (source order, nested function bodies excluded) of the function, returned
     as a marker object; the contract turns it into a function whose parameters are the fragment's free variables"""
     kind, _, ordn = fragment.partition(":")
+    if kind == "seq":
+        # 'seq:<n>:<count>': <count> consecutive top-level statements of the function, starting at statement number n
+        # (the docstring is not counted)
+        first, _, count = ordn.partition(":")
+        stmts = [b for b in fnode.body if not (isinstance(b, ast.Expr) and isinstance(b.value, ast.Constant) and isinstance(b.value.value, str))]
+        a, c = int(first), int(count or 1)
+        if a + c > len(stmts):
+            raise KeyError("no statements %d..%d in %s" % (a, a + c - 1, fnode.name))
+        frag = ast.FunctionDef(name="%s__seq%d" % (fnode.name, a), args=ast.arguments(posonlyargs=[], args=[], kwonlyargs=[], kw_defaults=[], defaults=[]),
+                               body=list(stmts[a:a + c]), decorator_list=[], returns=None, type_comment=None, type_params=[])
+        ast.copy_location(frag, stmts[a])
+        frag.end_lineno, frag.end_col_offset = stmts[a + c - 1].end_lineno, stmts[a + c - 1].end_col_offset
+        frag.is_fragment = True
+        frag.enclosing = fnode.name
+        frag.first_text = ast.unparse(stmts[a])
+        return frag
     cls = {"while": ast.While, "for": ast.For, "forbody": ast.For, "if": ast.If}[kind]
     found = []
     todo = list(fnode.body)
